@@ -39,3 +39,14 @@ Example C06_exact_nonvacuous :
   size_bytes_checked false [0;0;0;0;0;0;0;0; 2;0;0;0; 7;7] 16 c06_msg c06_cl = CkValid 14 1 /\
   described_fit false [0;0;0;0;0;0;0;0; 2;0;0;0; 7;7] c06_msg = Some 14.
 Proof. vm_compute. split; reflexivity. Qed.
+
+From Sbepp Require Import Wire MsgSpec CursorSpec ScriptSpec CheckedProofs.
+
+(* EXACTNESS, for every table, every byte buffer of any length and content:
+   whenever the visitor does not hit one of the two recorded over-reads (and
+   the model's iteration bound is not exhausted), valid = true with size s iff
+   the structure the bytes describe fits in the n bytes with size s
+   (Checked.described_fit, exact integer arithmetic) *)
+Theorem C06_checked_exact : stmt_checked_exact'.
+Proof. exact checked_exact'. Qed.
+Print Assumptions C06_checked_exact.
